@@ -6,7 +6,7 @@ shapes.  Not decided: numbers.
 """
 import ast
 
-from sa.helpers import (mkflow, spec, code, one, calls, bind_call, param_env,
+from sa.helpers import (the_return, mkflow, spec, code, one, calls, bind_call, param_env,
                         loop_matches, fmt, atom_of, unparse, unalloc, call_kw)
 from sa.index import AnalysisError
 from sa.algebra import RF, Slice
@@ -326,7 +326,7 @@ def _run(ix, R):
         b.update(Rp=code(fl, 'self._planet.fullRadius'),
                  z=code(fl, 'self.altitudeProfile'),
                  Rs=code(fl, 'self._star.radius'))
-        r = one(fl.of('return'), 'return')
+        r = the_return(fl)
         want = spec(fl, '((Rp**2 + sum((Rp+z)*(1-exp(-tau))*dz*2, axis=0))/Rs**2, '
                         'exp(-tau))', b)
         ok = fl.tab.equal(r.value, want)
